@@ -334,12 +334,17 @@ def nontrivial_text(text):
 # ---------------------------------------------------------------- campaigns
 
 
+TAG_TOKENS = ["<", ">", "/", "#", "a", " "]
+
+
 def shards(tier, seed):
     maxtok = 4 if tier == "quick" else 5
     specs = []
     firsts = linegen.TOKENS
     for f in firsts:
         specs.append({"part": "single", "first": f, "maxtok": maxtok})
+    for second in TAG_TOKENS:
+        specs.append({"part": "tags", "second": second, "maxtok": maxtok + 2})
     nsh = len(linegen.LINE_SHAPES)
     for i in range(nsh):
         specs.append({"part": "multi", "first": i, "maxlines": 4})
@@ -382,6 +387,16 @@ def run_shard(spec):
                          "k v" + " " * n + "\n<a/>\n"):
                 _do(res, text, ("schemaless", "recording"))
         res.exhaustive_parts.append("very long lines (8 Ki, 64 Ki, 1 Mi characters) as value, key, comment, section name, trailing blanks")
+        return res
+    if part == "tags":
+        # longer lines over the few tokens section tags are made of
+        for n in range(0, spec["maxtok"] - 1):
+            for t in itertools.product(TAG_TOKENS, repeat=n):
+                line = "<" + spec["second"] + "".join(t)
+                for text in linegen.contexts(line):
+                    _do(res, text, ("schemaless", "recording"))
+        res.exhaustive_parts.append("tag lines: '<' followed by all sequences of <= %d tokens over %r in 3 contexts"
+                                    % (spec["maxtok"] - 1, TAG_TOKENS))
         return res
     if part == "single":
         f = spec["first"]
